@@ -515,6 +515,7 @@ class YAMLPath:
                     segment_id = ""
 
                 seeking_collector_operator = False
+                seeking_anchor_mark = False
                 collector_level += 1
                 demarc_stack.append(char)
                 demarc_count += 1
